@@ -150,6 +150,14 @@ def enumerate_cases(tier, seed):
                     for via in ("argument", "characteristics"):
                         cases.append({"fam": "conversion", "shape": list(shape), "pattern": pat, "qe": qe,
                                       "sampling": sampling, "via": via})
+    # photo-conversion with a per-pixel efficiency map placed at an offset (row offset != column offset included)
+    for shape in SHAPES:
+        for mshape in ("same", "larger", "smaller"):
+            for pos in ((0, 0), (0, 1), (1, 0), (1, 2), (2, 1), (-1, 0), (0, -1)):
+                for sampling in (False, True):
+                    for pat in ("uniform", "ramp"):
+                        cases.append({"fam": "qemap", "shape": list(shape), "mshape": mshape, "pos": list(pos),
+                                      "sampling": sampling, "pattern": pat})
     # full well
     for shape in SHAPES:
         for pat in PATTERNS:
@@ -359,6 +367,65 @@ def run_conversion(case, res):
     res.nontrivial = bool(photons.any())
 
 
+def run_qemap(case, res):
+    """conversion_with_qe_map: the map is placed like any input image (offset = position of the map's first pixel on the
+    detector, zero efficiency where the map does not reach); per pixel 0 <= charge <= photons, = efficiency x photons
+    without sampling"""
+    import shutil
+    import tempfile
+
+    from pyxel.models.charge_generation import conversion_with_qe_map
+
+    from props.c20_input_files import ref_place
+
+    shape = tuple(case["shape"])
+    ms = {"same": shape, "larger": (shape[0] + 2, shape[1] + 1), "smaller": (shape[0] - 1, shape[1] - 1)}[case["mshape"]]
+    n = ms[0] * ms[1]
+    # non-uniform, non-symmetric map with exact binary fractions, a dead pixel (0) and a perfect one (1)
+    qmap = ((np.arange(n) * 5 + _seed()) % 9 / 8.0).reshape(ms)
+    py, px = case["pos"]
+    placed = ref_place(qmap, shape, py, px)
+    tmp = tempfile.mkdtemp(prefix="vp_c15_")
+    try:
+        fn = os.path.join(tmp, f"qe_{_seed()}.npy")
+        np.save(fn, qmap)
+        det = mk.detector("ccd", *shape)
+        photons = frame(case["pattern"], shape)
+        det.photon.array = photons.copy()
+        key = {"sampling": case["sampling"], "map": case["mshape"]}
+        try:
+            conversion_with_qe_map(det, filename=fn, position=(py, px), binomial_sampling=case["sampling"], seed=1 + _seed())
+            res.n += 1
+            charge = np.array(det.charge.array, dtype=float)
+        except Exception as e:  # noqa: BLE001
+            if placed is None:
+                res.sigs.append("no-overlap-rejected")
+                return
+            res.bad(dict(key, code="raised"), f"raised {type(e).__name__}: {str(e)[:200]}")
+            return
+        if placed is None:
+            res.bad(dict(key, code="no-overlap-accepted"), f"a map that does not reach the detector (position {(py, px)}) was accepted")
+            return
+        if (charge < 0).any() or (charge > photons * (1 + 1e-12)).any() or np.isnan(charge).any():
+            res.bad(dict(key, code="out-of-bounds"), f"charge {charge.tolist()} not within [0, photons {photons.tolist()}]")
+        if not case["sampling"]:
+            if not _close(charge, photons * placed, 1e-12):
+                res.bad(dict(key, code="expectation"), f"charge {charge.tolist()} != placed efficiency {placed.tolist()} x photons "
+                        f"{photons.tolist()} (map {qmap.tolist()} at position {(py, px)})")
+        else:
+            if (charge[placed == 0] != 0).any():
+                res.bad(dict(key, code="dead-pixel-converts"), f"pixels with efficiency 0 produced charge: {charge.tolist()} "
+                        f"(placed efficiency {placed.tolist()})")
+            full = placed == 1
+            if (charge[full] != np.floor(photons[full])).any():
+                res.bad(dict(key, code="perfect-pixel-loses"), f"pixels with efficiency 1 lost photons: {charge.tolist()} vs "
+                        f"{photons.tolist()} (placed efficiency {placed.tolist()})")
+        res.sigs.append(_sig(charge) if not case["sampling"] else [case["mshape"], py, px])
+        res.nontrivial = bool(photons.any())
+    finally:
+        shutil.rmtree(tmp, ignore_errors=True)
+
+
 def run_full_well(case, res):
     from pyxel.models.charge_collection import simple_full_well
 
@@ -538,7 +605,7 @@ def run_persistence(case, res):
             shutil.rmtree(tmp, ignore_errors=True)
 
 
-RUNNERS = {"collection": run_collection, "conversion": run_conversion, "full_well": run_full_well, "ipc": run_ipc,
+RUNNERS = {"collection": run_collection, "conversion": run_conversion, "qemap": run_qemap, "full_well": run_full_well, "ipc": run_ipc,
            "cdm": run_cdm, "simple_persistence": run_persistence, "persistence": run_persistence}
 
 
